@@ -1,6 +1,6 @@
 (* C12: soundness of the boolean checkers of RwSpec.v with respect to their Prop-level reading. *)
 From Coq Require Import NArith ZArith List Bool Lia.
-From Verif Require Import RwInfo.RwModel RwInfo.RwSpec.
+From Verif Require Import RwInfo.RwModel RwInfo.FeatModel RwInfo.RwSpec.
 Import ListNotations.
 Local Open Scope N_scope.
 
@@ -101,3 +101,23 @@ Proof. intros H c I. apply negb_true_iff. exact (proj1 (forallb_forall _ _) H c 
 
 (* a refuted case really violates the Prop-level reading (completeness of the checker on the write/read-flag part is not
    needed: the refutation theorems are stated on the boolean checker, whose definition is spelled out in RwSpec.v) *)
+
+(* ------------------------------------------------------------------ features *)
+Lemma has_In l f : has l f = true -> In f l.
+Proof. unfold has. intros H. apply existsb_exists in H as [x [I E]]. apply N.eqb_eq in E. subst. exact I. Qed.
+
+Lemma case_feat_ok_sound T C c : case_feat_ok T C c = true ->
+  exists rep, query_features T C (c_q c) = Some rep /\ features_cover c rep.
+Proof.
+  unfold case_feat_ok, feat_case_ok. destruct (query_features T C (c_q c)) as [rep|]; [|discriminate].
+  intros H. exists rep. split; [reflexivity|]. apply existsb_exists in H as [alt [I A]].
+  exists alt. split; [exact I|]. intros f F. apply has_In. exact (proj1 (forallb_forall _ _) A f F).
+Qed.
+
+Lemma feat_good_list T C l : forallb (case_feat_good T C) l = true ->
+  forall c, In c l -> (c_featcheck c = true -> exists rep, query_features T C (c_q c) = Some rep /\ features_cover c rep) /\
+                      (c_featcheck c = false -> case_feat_ok T C c = false).
+Proof.
+  intros H c I. pose proof (proj1 (forallb_forall _ _) H c I) as G. unfold case_feat_good in G.
+  split; intros E; rewrite E in G; [apply case_feat_ok_sound; exact G | apply negb_true_iff; exact G].
+Qed.
